@@ -31,7 +31,9 @@ RULE = ("BufferedSocket over a scripted socket: random byte streams over a 2-4 l
         "edge, or a call needed >= 2 deliveries, or a Timeout left partial data buffered, or a send needed >= 2 "
         "partial sends / timed out with bytes unsent, or a netstring was read across >= 2 deliveries; distinct = "
         "distinct canonical case hash")
-ASSUMPTIONS = ["every delivery of the network carries at least one byte and recvsize >= 1 (an empty delivery is a close)",
+ASSUMPTIONS = ["an interruption of the underlying socket is socket.timeout or an OSError raised by recv/send "
+               "before it transfers any byte (scripted: EWOULDBLOCK, EINTR, EPIPE, ECONNRESET, EIO, errno-less)",
+               "every delivery of the network carries at least one byte and recvsize >= 1 (an empty delivery is a close)",
                "sock.send accepts at least one byte of a non-empty buffer or times out",
                "wall-clock time-outs do not fire (timeout=None or 1000 s; time-outs come from the scripted socket)",
                "flags=0, sizes >= 0, one thread"]
@@ -57,9 +59,36 @@ def translators(repo):
 # --------------------------------------------------------------------------
 # the scripted socket
 # --------------------------------------------------------------------------
+ERR_KINDS = {11: lambda: BlockingIOError(11, "Resource temporarily unavailable"),      # EWOULDBLOCK / EAGAIN
+             4: lambda: InterruptedError(4, "Interrupted system call"),
+             32: lambda: BrokenPipeError(32, "Broken pipe"),
+             104: lambda: ConnectionResetError(104, "Connection reset by peer"),
+             5: lambda: OSError(5, "Input/output error"),
+             0: lambda: socket.error("scripted socket error without errno")}
+ERR_CODES = sorted(ERR_KINDS)
+LAST_RAISED = [None]      # the very exception object the scripted socket raised last
+
+
+def is_err(e):
+    return isinstance(e, list) and len(e) == 2 and e[0] == "E"
+
+
+def is_intr(e):
+    return e == "T" or is_err(e)
+
+
+def _raise(ev):
+    exc = socket.timeout("timed out") if ev == "T" else ERR_KINDS[ev[1]]()
+    LAST_RAISED[0] = exc
+    raise exc
+
+
 class ScriptSock:
+    """net: deliveries (lists of byte values), "T" (socket.timeout) or ["E", errno] (another socket
+    error); script: k (the kernel takes min(k+1, len) bytes), "T" or ["E", errno]."""
+
     def __init__(self, net, script, sock_timeout=None):
-        self.net = [bytes(e) if e != "T" else None for e in net]
+        self.net = [e if is_intr(e) else bytes(e) for e in net]
         self.script = list(script)
         self.tmo = sock_timeout
         self.consumed = 0
@@ -78,9 +107,9 @@ class ScriptSock:
         if not self.net:
             return b""
         e = self.net[0]
-        if e is None:
+        if is_intr(e):
             self.net.pop(0)
-            raise socket.timeout("timed out")
+            _raise(e)
         if len(e) <= n:
             self.net.pop(0)
             out = e
@@ -97,15 +126,16 @@ class ScriptSock:
             k = len(data)
         else:
             ev = self.script.pop(0)
-            if ev == "T":
-                raise socket.timeout("timed out")
+            if is_intr(ev):
+                _raise(ev)
             k = min(ev + 1, len(data))
         self.wire += bytes(data[:k])
         return k
 
 
 def _outcome(fn):
-    """Call fn; only the exception types the property names are outcomes."""
+    """Call fn; only the exception types the property names, and the very error object the scripted
+    socket raised (propagated unchanged), are outcomes; anything else escapes (= violation)."""
     from boltons import socketutils as su
     try:
         v = fn()
@@ -114,6 +144,10 @@ def _outcome(fn):
         if type(e) is not getattr(su, name, None) or name not in EXN:
             raise
         return ["exn", name]
+    except OSError as e:
+        if e is not LAST_RAISED[0] or isinstance(e, socket.timeout):
+            raise
+        return ["oserr", e.errno or 0]
     if v is None:
         return ["none"]
     if type(v) is bytes:
@@ -121,6 +155,10 @@ def _outcome(fn):
     if type(v) is int:
         return ["n", v]
     raise TypeError("unexpected return value %r" % (v,))
+
+
+def interrupted(out):
+    return out == ["exn", "Timeout"] or out[0] == "oserr"
 
 
 def _msz_kw(m):
@@ -132,9 +170,10 @@ def run_bs(case):
     sock = ScriptSock(case["net"], case["script"])
     tmo = case.get("timeout")
     bs = BufferedSocket(sock, timeout=tmo, maxsize=case["maxsize"], recvsize=case["recvsize"])
-    ntmo = sum(1 for e in case["net"] if e == "T") + sum(1 for e in case["script"] if e == "T")
+    ntmo = sum(1 for e in case["net"] if is_intr(e)) + sum(1 for e in case["script"] if is_intr(e))
     steps = []
-    marks = {"multi_recv": 0, "timeout_partial": 0, "partial_send": 0, "send_timeout_unsent": 0,
+    marks = {"multi_recv": 0, "timeout_partial": 0, "error_partial": 0, "partial_send": 0,
+             "send_timeout_unsent": 0, "send_error_after_partial": 0, "send_error_unsent": 0,
              "straddle_delim": 0, "size_inside_chunk": 0, "size_at_edge": 0}
     delivered = 0
     for idx, op in enumerate(case["ops"]):
@@ -173,12 +212,18 @@ def run_bs(case):
                     marks["partial_send"] += 1
                 if out == ["exn", "Timeout"] and buf:
                     marks["send_timeout_unsent"] += 1
+                if out[0] == "oserr" and buf:
+                    marks["send_error_unsent"] += 1
+                    if sock.send_calls - sc0 >= 2:
+                        marks["send_error_after_partial"] += 1
             else:
                 buf, cnt = bs.getrecvbuffer(), sock.consumed
                 if sock.recv_calls - rc0 >= 2:
                     marks["multi_recv"] += 1
                 if out == ["exn", "Timeout"] and buf:
                     marks["timeout_partial"] += 1
+                if out[0] == "oserr" and buf:
+                    marks["error_partial"] += 1
                 inner = set(sock.edges) - {sock.consumed}
                 if out[0] == "b":
                     if k == "until":
@@ -195,7 +240,7 @@ def run_bs(case):
                 raise TypeError("buffer view is %r" % type(buf))
             steps.append([op, out, list(buf), cnt])
             tries += 1
-            if not (case.get("retry") and out == ["exn", "Timeout"] and tries <= ntmo):
+            if not (case.get("retry") and interrupted(out) and tries <= ntmo):
                 break
             if k == "send":          # the data is in the send buffer: a caller retries with flush()
                 op, k = ["flush"], "flush"
@@ -208,8 +253,8 @@ def cut_stream(stream, cuts):
     """Deliveries: cut sizes (>= 1) and "T" in order; what is left is the last delivery."""
     net, i = [], 0
     for c in cuts:
-        if c == "T":
-            net.append("T")
+        if is_intr(c):
+            net.append(c)
         elif i < len(stream):
             net.append(list(stream[i:i + c]))
             i += c
@@ -234,7 +279,7 @@ def run_ns(case):
     net = cut_stream(stream, case["cuts"])
     rsock = ScriptSock(net, [])
     r = NetstringSocket(rsock, maxsize=case["rmax"])
-    ntmo = sum(1 for e in net if e == "T")
+    ntmo = sum(1 for e in net if is_intr(e))
     rsteps = []
     multi = 0
     for idx, op in enumerate(case["rops"]):
@@ -250,11 +295,12 @@ def run_ns(case):
                 multi += 1
             rsteps.append([op, out, list(r.bsock.getrecvbuffer()), rsock.consumed])
             tries += 1
-            if not (case.get("retry") and out == ["exn", "Timeout"] and tries <= ntmo):
+            if not (case.get("retry") and interrupted(out) and tries <= ntmo):
                 break
     return {"wsteps": wsteps, "wwire": list(wire), "net": net, "rsteps": rsteps,
             "marks": {"ns_multi_recv": multi,
                       "ns_timeouts": sum(1 for s in rsteps if s[1] == ["exn", "Timeout"]),
+                      "ns_errors": sum(1 for s in rsteps if s[1][0] == "oserr"),
                       "ns_payloads_read": sum(1 for s in rsteps if s[1][0] == "b")}}
 
 
@@ -319,15 +365,19 @@ def c_out(o):
         return "(ONat %s)" % cnat(o[1])
     if o[0] == "none":
         return "ONone"
+    if o[0] == "oserr":
+        return "(OExn (OSErr %s))" % cnat(o[1])
     return "(OExn %s)" % EXN[o[1]]
 
 
 def c_net(net):
-    return clist("TimeoutEv" if e == "T" else "Chunk %s" % cb(e) for e in net)
+    return clist("TimeoutEv" if e == "T" else ("ErrorEv %s" % cnat(e[1]) if is_err(e) else "Chunk %s" % cb(e))
+                 for e in net)
 
 
 def c_script(sc):
-    return clist("STimeoutEv" if e == "T" else "SAccept %s" % cnat(e) for e in sc)
+    return clist("STimeoutEv" if e == "T" else ("SErrorEv %s" % cnat(e[1]) if is_err(e) else "SAccept %s" % cnat(e))
+                 for e in sc)
 
 
 def c_steps(steps, render):
@@ -390,14 +440,19 @@ def rand_cuts(rng, n, style=None):
     return cuts
 
 
+def rand_intr(rng, perr=0.4):
+    """A time-out, or (40 %) another socket error."""
+    return ["E", rng.choice([11, 11, 11, 4, 32, 104, 5, 0])] if rng.random() < perr else "T"
+
+
 def add_timeouts(rng, cuts, p):
     out = []
     for c in cuts:
         while rng.random() < p:
-            out.append("T")
+            out.append(rand_intr(rng))
         out.append(c)
     while rng.random() < p:
-        out.append("T")
+        out.append(rand_intr(rng))
     return out
 
 
@@ -487,7 +542,7 @@ def gen_send_ops(rng, nops):
 
 
 def rand_script(rng, n):
-    return [("T" if rng.random() < 0.25 else rng.choice([0, 0, 1, 2, 4, 8, 30])) for _ in range(n)]
+    return [(rand_intr(rng, 0.5) if rng.random() < 0.3 else rng.choice([0, 0, 1, 2, 4, 8, 30])) for _ in range(n)]
 
 
 def gen_bs(rng, tier, flavour):
@@ -513,7 +568,7 @@ def gen_bs(rng, tier, flavour):
             ops.append(src.pop(0))
     return {"kind": "bs", "maxsize": rng.choice([0, 1, 2, 3, 4, 6, 10, 20, 100, 4096]),
             "recvsize": rng.choice([1, 1, 2, 2, 3, 4, 5, 6, 64, 4096]),
-            "timeout": rng.choice([None, None, 1000.0]), "net": net, "script": script, "ops": ops,
+            "timeout": rng.choice([None, None, 1000.0, 0]), "net": net, "script": script, "ops": ops,
             "retry": rng.random() < 0.7}
 
 
@@ -530,7 +585,7 @@ def gen_exhaustive_family(rng, tier):
         cuts = []
         for p in parts:
             if rng.random() < 0.25:
-                cuts.append("T")
+                cuts.append(rand_intr(rng, 0.3))
             cuts.append(p)
         yield dict(base, net=cut_stream(stream, cuts))
 
@@ -578,11 +633,11 @@ def gen_sweep(rng):
                     cuts = []
                     for t, p in zip(tm, parts):
                         if t:
-                            cuts.append("T")
+                            cuts.append(rand_intr(rng, 0.3))
                         cuts.append(p)
                     if tm[-1]:
-                        cuts.append("T")
-                    nets.append(cut_stream(stream, cuts) + (["T"] if tm[-1] and n == 0 else []))
+                        cuts.append(rand_intr(rng, 0.3))
+                    nets.append(cut_stream(stream, cuts))
             for net in nets:
                 d = rng.choice(delims)
                 m = rng.choice(list(range(0, n + 2)) + ["unset"])
@@ -658,15 +713,17 @@ def distribution(d, case, obs):
         for st in obs["steps"]:
             k = st[0][0]
             oh[k] = oh.get(k, 0) + 1
-            o = st[1][1] if st[1][0] == "exn" else "ok"
+            o = st[1][1] if st[1][0] == "exn" else ("OSErr" if st[1][0] == "oserr" else "ok")
             outs[k + ":" + o] = outs.get(k + ":" + o, 0) + 1
+        tm = d.setdefault("timeout_mode", {})
+        tm[str(case.get("timeout"))] = tm.get(str(case.get("timeout")), 0) + 1
         rs = d.setdefault("recvsize", {})
         rs[str(case["recvsize"])] = rs.get(str(case["recvsize"]), 0) + 1
     else:
         for st in obs["rsteps"]:
             k = "ns_" + st[0][0]
             oh[k] = oh.get(k, 0) + 1
-            o = st[1][1] if st[1][0] == "exn" else "ok"
+            o = st[1][1] if st[1][0] == "exn" else ("OSErr" if st[1][0] == "oserr" else "ok")
             outs[k + ":" + o] = outs.get(k + ":" + o, 0) + 1
         for st in obs["wsteps"]:
             k = "ns_" + st[0][0]
@@ -695,9 +752,9 @@ def shrink(case):
     net = case["net"]
     for i in range(len(net)):
         yield dict(case, net=net[:i] + net[i + 1:])
-        if net[i] != "T" and len(net[i]) > 1:
+        if not is_intr(net[i]) and len(net[i]) > 1:
             yield dict(case, net=net[:i] + [net[i][:-1]] + net[i + 1:])
-        if net[i] != "T" and i + 1 < len(net) and net[i + 1] != "T":
+        if not is_intr(net[i]) and i + 1 < len(net) and not is_intr(net[i + 1]):
             yield dict(case, net=net[:i] + [net[i] + net[i + 1]] + net[i + 2:])
     sc = case["script"]
     for i in range(len(sc)):
